@@ -505,6 +505,7 @@ TARGETS = {
     "SrcMolParse": ("molecule.py", translate_sys.translate_molparse),
     "SrcDescrPrint": ("bond.py", translate_sys.translate_descrprint),
     "SrcPrint": ("token.py", translate_sys.translate_printers),
+    "SrcFFSel": ("forcefield_helper.py", translate_sys.translate_ffsel),
     "SrcAttach": ("mol_gen.py", translate_sys.translate_attach),
     "SrcRGraph": ("molecule.py", translate_sys.translate_rgraph),
     "SrcCore": ("core.py", translate_sys.translate_core),
